@@ -155,6 +155,41 @@ func (c *Ctx) checkEndingsClear(clearers []fieldAccess) {
 	slot := c.E().topicField("currentCall")
 	timerF := c.E().topicField("callEstablishmentTimer")
 	r.Floor("C15.3-endings-clear", 2)
+	// a helper that frees the slot unconditionally (`releaseCurrentCall()`: no test of the slot, the
+	// nil store on every path): the functions that call it are the ending functions
+	storesNil := func(in ssa.Instruction) bool {
+		if st, ok := in.(*ssa.Store); ok {
+			f, _ := core.FieldOfAddr(st.Addr)
+			return f == slot && core.IsNil(st.Val)
+		}
+		return false
+	}
+	release := map[*ssa.Function]bool{}
+	for _, a := range clearers {
+		fn := a.Fn
+		_, cnt := firstPassEdges(fn, core.NilGuard("currentCall!=nil", core.IsFieldLoad(slot), false))
+		if cnt[0] == 0 {
+			if found, _ := core.PathAvoiding(fn, nil, core.IsReturn, storesNil, nil); !found {
+				release[fn] = true
+			}
+		}
+	}
+	if len(release) > 0 {
+		var more []fieldAccess
+		for _, a := range clearers {
+			if !release[a.Fn] {
+				more = append(more, a)
+			}
+		}
+		for rf := range release {
+			for _, cs := range c.callersOf(rf) {
+				if call, ok := cs.Site.(*ssa.Call); ok && call.Call.StaticCallee() == rf {
+					more = append(more, fieldAccess{Fn: cs.Caller, Instr: call, Kind: "store"})
+				}
+			}
+		}
+		clearers = more
+	}
 	seen := map[*ssa.Function]bool{}
 	for _, a := range clearers {
 		fn := a.Fn
@@ -174,6 +209,9 @@ func (c *Ctx) checkEndingsClear(clearers []fieldAccess) {
 			}
 			if call, ok := in.(*ssa.Call); ok {
 				if cal := call.Call.StaticCallee(); cal != nil && cal != fn {
+					if release[cal] {
+						return true
+					}
 					for _, o := range clearers {
 						if o.Fn == cal {
 							return true
@@ -188,6 +226,23 @@ func (c *Ctx) checkEndingsClear(clearers []fieldAccess) {
 			"an ending path returns"+posOf(c, w)+" with the call slot still taken: every later invitation is answered busy")
 		// timer stopped in the function that produces the final message
 		hasStop := false
+		scanFns := []*ssa.Function{fn}
+		core.AllInstrs(fn, func(in ssa.Instruction) {
+			if call, ok := in.(*ssa.Call); ok {
+				if cal := call.Call.StaticCallee(); cal != nil && release[cal] {
+					scanFns = append(scanFns, cal)
+				}
+			}
+		})
+		for _, sf := range scanFns[1:] {
+			core.AllInstrs(sf, func(in ssa.Instruction) {
+				if call, ok := in.(*ssa.Call); ok {
+					if f := core.CalleeOf(&call.Call); f != nil && f.Name() == "Stop" && len(core.CallArgs(&call.Call)) > 0 && core.IsFieldLoad(timerF)(core.CallArgs(&call.Call)[0]) {
+						hasStop = true
+					}
+				}
+			})
+		}
 		core.AllInstrs(fn, func(in ssa.Instruction) {
 			if call, ok := in.(*ssa.Call); ok {
 				if f := core.CalleeOf(&call.Call); f != nil && f.Name() == "Stop" && core.IsFieldLoad(timerF)(core.CallArgs(&call.Call)[0]) {
